@@ -35,7 +35,7 @@ RULE = (
     'TernGrad), a shape from a small menu (size 1..256, rank <= 3; thorough up '
     'to 4096), a level count L (2..64, plus 125/256/1024/65536), a value class '
     '{generic, constant, all-zero, on-grid (min + j*step built from integers), '
-    'two-valued, huge dynamic range 2^-99..2^122, near-equal (a few ulps '
+    'two-valued, huge dynamic range 2^-99..2^125, near-equal (a few ulps '
     'apart), sparse outliers} with explicit float32 values, and an integer '
     'seed; the quantizer is vmapped over K keys = split(PRNGKey(seed), K) '
     '(K = 4000 quick / 50000 thorough for size <= 64, fewer for large sizes) '
@@ -52,9 +52,13 @@ RULE = (
     'effective clients for the one-round statistical/independence checks). '
     'distinct = distinct canonical case JSON.')
 ASSUMPTIONS = [
-    'domain: float32 values that are 0 or normal with 2^-99 <= |x| <= 2^122 '
-    '(~1.6e-30..5.3e36) for the uniform/binary quantizers, so that max-min is '
-    'finite in float32 and differences of distinct values are normal numbers; '
+    'domain: float32 values that are 0 or normal with 2^-99 <= |x| <= 2^125 '
+    '(~1.6e-30..4.3e37) for the uniform/binary quantizers, so that max-min <= '
+    '2^126 (its float32 reciprocal is still a normal number) and differences of '
+    'distinct values are normal numbers; vectors with max-min > 2^126 are two '
+    'open findings of the uniform quantizer (all coordinates at the minimum; NaN '
+    'once the range overflows), excluded by this bound and re-confirmed through '
+    'their witness replays; '
     'TernGrad and DRIVE square their input: 2^-40 <= |x| <= 2^50 there; '
     'aggregator leaves |x| <= 2^100 and weights in {0} u [1/8, 64] with <= 5 '
     'clients so that weighted sums stay finite; no subnormals, NaN or inf',
@@ -988,7 +992,8 @@ SHAPES = {
 # the un-jitted public functions are called op by op (every primitive compiles
 # once per shape), so eager calls are made for these shapes only
 EAGER_SHAPES = {'quick': [[3]], 'thorough': [[3], [2, 3, 4]]}
-DOM_WIDE = (-99, 122)     # uniform / binary quantizers
+DOM_WIDE = (-99, 125)     # uniform / binary quantizers: |v| <= 2^125, so max-min <= 2^126
+                          # (beyond that: two open findings, excluded by construction)
 DOM_SQ = (-40, 50)        # TernGrad, DRIVE (inputs are squared)
 DOM_AGG = (-99, 100)      # uniform aggregators (weighted sums must stay finite)
 DOM_ROT = (-60, 100)
